@@ -28,25 +28,7 @@ def main(prop, tier):
     rc, out, err = run([exe], timeout=120)
     if rc != 0:
         chk.error("verdrv exit %d: %s" % (rc, err[-500:]))
-        # concurrent executions of the real word under the deterministic scheduler (preemption before every load and CAS attempt)
-    cexe = build("verconc", ["verconc.cpp"], sessions=16)
-    for pg in "ABC":
-        tr2 = os.path.join(BUILD, "traces", "c17_conc_%s.ndjson" % pg)
-        rc, out, err = run([cexe, "prog=" + pg, "runs=%d" % (120 if tier == "quick" else 1500), "seed=%d" % __import__("common").seed()], timeout=300)
-        lines2 = out.splitlines()
-        if rc != 0 or (lines2 and '"e":"abort"' in lines2[-1]):
-            chk.violation("concurrent-run-did-not-complete", "verconc program %s: %s" % (pg, (lines2[-1] if lines2 else err)[:300]))
-            continue
-        open(tr2, "w").write(out)
-        v2 = validate(chk, "TraceVersionConc", "TraceVersionConc.cfg", tr2, "concurrent version-word executions, program %s (%d events)" % (pg, len(lines2)), timeout=600)
-        chk.cov["concurrent_events"] = chk.cov.get("concurrent_events", 0) + len(lines2)
-        if v2["undecided"]:
-            chk.error("concurrent trace validation undecided: " + v2["text"])
-        elif not v2["accepted"]:
-            rp = chk.save_replay("conc_%s_line%d.ndjson" % (pg, v2["line"]), "\n".join(lines2[max(0, v2["line"] - 25):v2["line"]]))
-            e = json.loads(v2["text"]) if v2["text"].startswith("{") else {}
-            chk.violation("conc-%s" % e.get("e", "?"), "concurrent execution of program %s is not a behaviour of the version-word protocol at event %d: %s" % (pg, v2["line"], v2["text"]), rp)
-    return chk.finish()
+        return chk.finish()
     open(tr, "w").write(out)
     lines = out.splitlines()
     for s in lines[:: max(1, len(lines) // 4)][:4]:
